@@ -46,6 +46,8 @@ type Result struct {
 	NotDecided  []string
 	Broken      []string // checker faults (exit 2)
 	SelfTest    map[string]int
+	Extra       map[string]any
+	AfterCheck  func()
 	start       time.Time
 }
 
@@ -115,6 +117,32 @@ func LoadKnown(path string) ([]Known, error) {
 		return nil, err
 	}
 	return ks, nil
+}
+
+// Unresolved returns the obligations that are violated or undecided and not covered by a
+// known finding (used by the self-test driver; writes nothing).
+func (r *Result) Unresolved(known []Known) []Obligation {
+	sort.SliceStable(r.Obls, func(i, j int) bool { return r.Obls[i].Key < r.Obls[j].Key })
+	seen := map[string]int{}
+	knownKeys := map[string]bool{}
+	for _, k := range known {
+		if k.Property == r.Prop && k.Status == "known" {
+			knownKeys[k.Key] = true
+		}
+	}
+	var out []Obligation
+	for _, o := range r.Obls {
+		k := o.Key
+		seen[k]++
+		if seen[k] > 1 {
+			k = fmt.Sprintf("%s#%d", k, seen[k])
+		}
+		if (o.Status == "violated" || o.Status == "undecided") && !knownKeys[k] {
+			o.Key = k
+			out = append(out, o)
+		}
+	}
+	return out
 }
 
 // Finish applies known findings, writes evidence and the violations file, prints the
@@ -202,6 +230,9 @@ func (r *Result) Finish(verifDir string, known []Known, seed int) int {
 	}
 	if r.SelfTest != nil {
 		cov["selftest"] = r.SelfTest
+	}
+	for k, v := range r.Extra {
+		cov[k] = v
 	}
 	assumptions := append([]string{}, r.Assumptions...)
 	assumptions = append(assumptions, r.Trusted...)
